@@ -47,6 +47,7 @@ EXTENDS Naturals, Sequences, FiniteSets, TLC
 CONSTANTS
     RPCs,          \* the client functions explored
     Variants,      \* parameter variants (ranges, counts, tree shapes) chosen by the harness
+    ReadVariants,  \* ... of ReadSector (more: whole-sector reads, zero-tailed sectors, ranges across the tail)
     MaxFaults,     \* size of a fault plan: 1 = all single corruptions, 2 = + all pairs, ...
     NRandom,       \* random byte-level mutations per message
     DevUnchecked   \* <<rpc, field>> pairs the abstract client forgets to verify ({} = the client as intended;
@@ -109,6 +110,11 @@ Catalog ==
     \cup RawInner("ReadSector", "resp")
     \cup E("ReadSector", "data", "Bytes", {"flip", "truncate"} \cup Other, "unbind")
     \cup E("ReadSector", "data", "Bytes", {"extend"}, "neutral")
+    \* the host declares the honest DataLength (and proof) but CLOSES THE STREAM EARLY: after a leaf-aligned
+    \* prefix (at the end of the sector's non-zero bytes where the range has a zero tail), inside a leaf,
+    \* after the first leaf, before the last leaf.  Read: ok => the bytes delivered to the caller's writer
+    \* are exactly the requested range -- a prefix never is.
+    \cup E("ReadSector", "data", "Stream", {"cutLeaf", "cutMid", "cutFirstLeaf", "cutLastLeaf"}, "unbind")
     \* ---- read at an unaligned offset: the host answers with the enclosing leaf-aligned range and its
     \*      (valid) proof -- more and other bytes than the caller asked for
     \cup E("ReadUnaligned", "resp", "All", {"otherRange"}, "unbind")
@@ -183,7 +189,7 @@ Catalog ==
 
 \* what the client functions verify (field granularity), read off rpc.go
 Checked ==
-       {<<"ReadSector", f>> : f \in {"Proof", "DataLength", "Bytes", "All", "Raw"}}
+       {<<"ReadSector", f>> : f \in {"Proof", "DataLength", "Bytes", "Stream", "All", "Raw"}}   \* Stream: the byte count
   \cup {<<"ReadInvalid", "All">>, <<"RootsOutOfRange", "All">>}
   \cup {<<"ReadUnaligned", "All">>, <<"FreeOutOfRange", "All">>}   \* the client refuses these requests itself (before dialing)
   \cup {<<"WriteSector", f>> : f \in {"Root", "Raw"}}
@@ -196,6 +202,7 @@ Checked ==
   \cup {<<"LatestRevision", "Raw">>, <<"AccountBalance", "Raw">>}
 
 -----------------------------------------------------------------------------
+VariantsOf(r) == IF r = "ReadSector" THEN ReadVariants ELSE Variants
 Cat(r) == {c \in Catalog : c.rpc = r}
 F(c) == [msg |-> c.msg, field |-> c.field, how |-> c.how, k |-> 0]
 MsgSet(r) == {Msgs(r)[i] : i \in DOMAIN Msgs(r)}
@@ -289,7 +296,7 @@ Deliver ==
     /\ UNCHANGED <<rpc, variant, plan, wire>>
 
 Next ==
-    \/ \E r \in RPCs, v \in Variants : \E p \in Plans(r) : Start(r, v, p)
+    \/ \E r \in RPCs : \E v \in VariantsOf(r) : \E p \in Plans(r) : Start(r, v, p)
     \/ Deliver
 
 Spec == Init /\ [][Next]_vars
